@@ -284,3 +284,111 @@ def check_C08(ctx):
         ctx.extra["model_behaviours_conforming"] = sum(1 for e in em if e.get("t") == "CONF")
         ctx.extra["scenarios_explored_exhaustively"] = sum(1 for e in em if e.get("t") == "EXH")
         ctx.extra["schedules_walked_on_real_code"] = sum(e.get("leaves", 0) for e in em if e.get("t") == "EXH")
+
+
+# ------------------------------------------------------------------------------- builder family (C05 C06 C07 ...)
+
+def _check_key_table(trace):
+    """The key table of every Reset event maps vkey -> key hash; re-check it with hashlib (independent of the library)."""
+    seen = set()
+    for r in vlib.read_ndjson(trace):
+        if r.get("ev") == "Reset":
+            for k in r.get("keys", []):
+                t = (bytes(k["vkey"]), bytes(k["hash"]))
+                if t in seen:
+                    continue
+                seen.add(t)
+                if vlib.digest("blake2b224", k["vkey"]) != k["hash"]:
+                    raise ToolError("key table entry %s: hash is not blake2b-224(vkey)" % k["k"])
+    return len(seen)
+
+
+def builder_family(ctx, n_random, mc_sample, flags=(), corrupt=None, extra_scn=None):
+    if ctx.replay:
+        return ctx.run_replay()
+    import random
+    cfg = "MC_TxBuilder_thorough.cfg" if ctx.thorough else "MC_TxBuilder.cfg"
+    r = ctx.mc("MC_TxBuilder", cfg=cfg, workers=8)
+    scn = r.by("SCN")
+    rnd = random.Random(ctx.seed)
+    if mc_sample and len(scn) > mc_sample:
+        scn = rnd.sample(scn, mc_sample)
+        ctx.exhaustive = False
+        ctx.extra["model_scenarios_sampled"] = mc_sample
+    if extra_scn:
+        scn = scn + extra_scn
+    p = ctx.write_scn(scn)
+    run = ctx.drive("builder", scn=p, n=n_random, flags=flags)
+    ctx.extra["key_table_entries_rechecked_with_hashlib"] = _check_key_table(run["trace"])
+    em = ctx.validate("Trace_TxBuilder", run, shards=16, corrupt=corrupt)
+    if em is not None:
+        tf = [e for e in em if e.get("t") == "TOOLFAIL"]
+        if tf:
+            raise ToolError("harness/spec disagreement (not a verdict): %s" % json.dumps(tf[0])[:400])
+    return run
+
+
+def _corrupt_env_coin(recs, rnd):
+    """negative control: one lovelace is added to every environment entry - balanced transactions stop balancing"""
+    n = 0
+    for r in recs:
+        if r.get("ev") == "Reset":
+            for u in r["utxo"]:
+                v = u["value"]["coin_n"]
+                if v:
+                    v[-1] = (v[-1] + 1) % 256
+                    n += 1
+    return n > 0
+
+
+def _corrupt_fee(recs, rnd):
+    """negative control: protocol parameter b raised by 100000 in every scenario - the recorded fees become insufficient"""
+    n = 0
+    for r in recs:
+        if r.get("ev") == "Reset":
+            r["pp"]["b"] += 100000
+            n += 1
+    return n > 0
+
+
+def _corrupt_cpb(recs, rnd):
+    n = 0
+    for r in recs:
+        if r.get("ev") == "Reset":
+            r["pp"]["cpb"] = r["pp"]["cpb"] * 3 + 5000
+            n += 1
+    return n > 0
+
+
+_BUILDER_ASSUME = ["the UTxO environment of a scenario is valid ledger state: no zero quantities, inputs exist, values fit 64 bits",
+                   "deposits and refunds are computed by LedgerRules.tla from the certificates in the emitted body (C20 table)",
+                   "signatures are attached by the harness through FixedTransaction; the validator recomputes the required signer set "
+                   "from the emitted body and the environment and aborts (exit 2) when the harness signed with a different set",
+                   "key hashes of the scenario's keys are re-checked with hashlib.blake2b by the orchestrator",
+                   "Plutus execution-unit and reference-script fee parts are exercised under C09/C10/C18 scenarios"]
+
+
+@prop("C05", "scenario = UTxO environment + parameters + a history of builder calls ending in a balancing call and Build; all orders of "
+             "<= 4 (quick) / 5 operations from MC_TxBuilder's pool plus seeded random histories (assets up to 40 per UTxO, amounts in every "
+             "CBOR width class, certificates of all kinds, withdrawals, mint/burn, donation, selection strategies); non-trivial = a "
+             "transaction built after balancing was reported successful, whose consumed and produced values the validator summed from "
+             "the bytes; distinct = (#inputs, #outputs, cert/withdrawal/mint/donation/collateral presence, fee width)")
+def check_C05(ctx):
+    ctx.assumptions += _BUILDER_ASSUME
+    builder_family(ctx, n_random=20000 if ctx.thorough else 1500, mc_sample=None if ctx.thorough else 1200, corrupt=_corrupt_env_coin)
+
+
+@prop("C06", "as C05; every built transaction is really signed (vkey and bootstrap witnesses) and the fee in the body is compared with "
+             "a*len(signed bytes)+b computed by the validator; fee requests (SetFee / SetMinFee) are tracked as state; non-trivial = a "
+             "signed transaction after successful balancing; distinct = (shape, #vkey witnesses, #bootstrap witnesses, fee width)")
+def check_C06(ctx):
+    ctx.assumptions += _BUILDER_ASSUME
+    builder_family(ctx, n_random=20000 if ctx.thorough else 1500, mc_sample=None if ctx.thorough else 1200, corrupt=_corrupt_fee)
+
+
+@prop("C07", "as C05; every output of every built transaction is checked for coin >= cpb*(160+size) and value size <= max, the signed "
+             "transaction for size <= max; stand-alone min_ada_for_output calls are validated by Trace_MinAda over an output lattice; "
+             "distinct = transaction shapes and output shapes")
+def check_C07(ctx):
+    ctx.assumptions += _BUILDER_ASSUME
+    builder_family(ctx, n_random=20000 if ctx.thorough else 1500, mc_sample=None if ctx.thorough else 1200, corrupt=_corrupt_cpb)
